@@ -9,6 +9,9 @@ open PedVerif.Subproc
 #print axioms run_length_bounded
 #print axioms childBeh_table
 #print axioms source_shape
+#print axioms join_waits
+#print axioms join_timeout_leaves_child
+#print axioms daemon_breaks_spawning_callee
 #print axioms unfixed_normal_ok
 #print axioms unfixed_deadlock_local
 #print axioms unfixed_deadlock
